@@ -2,6 +2,10 @@
 from fam import designs, passes
 from elab import passcheck
 
+
+def _reraise():
+    raise
+
 FUNCS = 'pyrtl.transform.copy_block / clone_wire / _copy_net / MemBlock._make_copy; ' \
         'synthesize/optimize(update_working_block=False)'
 NOUPD = ['copy_block', 'synthesize_noupdate', 'optimize_copy']
@@ -139,8 +143,9 @@ def run(ctx):
     res = passcheck.pmap(_frame, cases)
     bad = 0
     for (d, p), r in zip(cases, res):
-        if r.get('error'):
-            raise RuntimeError(r['error'])
+        if r.get('crashed'):
+            ctx.crashes.append('C11.frame: ' + r['observed'][-400:])
+            continue
         if r['failed']:
             bad += 1
             ctx.confirm_and_report('C11.frame[%s|%s]' % (p, passcheck._dname(d)), 'call',
@@ -163,4 +168,5 @@ def _frame(case):
     try:
         return frame_check(case[0], case[1])
     except Exception:
-        return dict(failed=False, error=traceback.format_exc()[-1500:])
+        from vlib.guard import guarded
+        return guarded(_reraise)
